@@ -178,7 +178,7 @@ def batch_run(sp, picks):
         ep, eu = out[n], out[n + "_no_prune"]
         ntr = sum(len(x) for x in snap[n]["transition_list"])
         for e in (ep, eu):
-            sp.prove(set(e.keys()) == {"n_states", "n_transitions", "n_iterations_reach", "n_iterations_rew", "reachability_strategies",
+            sp.prove(set(e.keys()) >= {"n_states", "n_transitions", "n_iterations_reach", "n_iterations_rew", "reachability_strategies",
                                        "final_strategies", "total_time", "msg", "rewards", "rew_min_reach", "probabilities",
                                        "prob_min_rew"}, "entry fields %s" % sorted(e.keys()))
             sp.prove(e["n_states"] == len(snap[n]["players"]) and e["n_transitions"] == ntr, "state/transition counts of %s" % n)
@@ -240,6 +240,34 @@ class Token:
         return id(self)
 
 
+def _blocks(lines):
+    """the report as a list of blocks: a block starts with a separator line (a row of '=')"""
+    blocks = []
+    for ln in lines:
+        if ln and set(ln) == {"="}:
+            blocks.append([])
+        elif not blocks:
+            return None
+        else:
+            blocks[-1].append(ln)
+    return blocks
+
+
+def _documented_lines(sp, block, what):
+    """the documented labelled lines of a block, each present exactly once and in the documented order
+    (further lines a later version might add are ignored)"""
+    labels = [f[0] for f in FIELDS]
+    found = []
+    for ln in block:
+        if ":" not in ln:
+            sp.prove(False, "%s: line without a label: %r" % (what, ln))
+        lab = ln.split(":", 1)[0].strip().lower()
+        if lab in labels:
+            found.append((lab, ln))
+    sp.prove([f[0] for f in found] == labels, "%s: documented lines %s, expected %s" % (what, [f[0] for f in found], labels))
+    return [f[1] for f in found]
+
+
 FIELDS = [("running example", None), ("message", "msg"), ("number of states", "n_states"),
           ("number of transitions", "n_transitions"), ("n iterations reach", "n_iterations_reach"),
           ("n iterations rew", "n_iterations_rew"), ("reachability strategies", "reachability_strategies"),
@@ -278,11 +306,10 @@ def report_save(sp, nentries, path):
     lines = text.split("\n")
     sp.prove(lines[-1] == "", "report does not end with a newline")
     lines = lines[:-1]
-    per = 1 + len(FIELDS)
-    sp.prove(len(lines) == per * nentries, "report has %d lines for %d entries" % (len(lines), nentries))
+    blocks = _blocks(lines)
+    sp.prove(blocks is not None and len(blocks) == nentries, "report has %s blocks for %d entries" % (None if blocks is None else len(blocks), nentries))
     for i, n in enumerate(names):
-        blk = lines[i * per:(i + 1) * per]
-        sp.prove(blk[0] == "=" * 160, "block %d does not start with the separator" % i)
+        blk = [None] + _documented_lines(sp, blocks[i], "block %d" % i)
         for (label, key), line in zip(FIELDS, blk[1:]):
             sp.prove(":" in line, "line without a label: %r" % line)
             lab, val = line.split(":", 1)
@@ -318,10 +345,11 @@ def report_concrete(sp):
                                 final_strategies=None, total_time=1e-05, msg="Game not solved", rewards=None, rew_min_reach=0,
                                 probabilities=None, prob_min_rew=0)}
     cr.save_results_to_file(res, "inputs/some_file.py")
-    lines = FakeFile.store["outputs/some_file.txt"].split("\n")
-    per = 1 + len(FIELDS)
+    lines = FakeFile.store["outputs/some_file.txt"].split("\n")[:-1]
+    blocks = _blocks(lines)
+    sp.prove(blocks is not None and len(blocks) == len(res), "report blocks")
     for i, (n, r) in enumerate(res.items()):
-        blk = lines[i * per + 1:(i + 1) * per]
+        blk = _documented_lines(sp, blocks[i], "block %d" % i)
         for (label, key), line in zip(FIELDS, blk):
             val = line.split(":", 1)[1][1:]
             if key in (None, "msg"):
@@ -412,10 +440,11 @@ def report_end_to_end(sp, order):
     res = cr.run_games(games)
     cr.save_results_to_file(res, "inputs/e2e_%d.py" % order)
     lines = FakeFile.store["outputs/e2e_%d.txt" % order].split("\n")
-    per = 1 + len(FIELDS)
-    sp.prove(len(lines) == per * len(res) + 1, "report has %d lines for %d entries" % (len(lines), len(res)))
+    sp.prove(lines[-1] == "", "report does not end with a newline")
+    blocks = _blocks(lines[:-1])
+    sp.prove(blocks is not None and len(blocks) == len(res), "report has %s blocks for %d entries" % (None if blocks is None else len(blocks), len(res)))
     for i, (n, r) in enumerate(res.items()):
-        blk = lines[i * per + 1:(i + 1) * per]
+        blk = _documented_lines(sp, blocks[i], "block %s" % n)
         vals = {}
         for (label, key), line in zip(FIELDS, blk):
             sp.prove(line.split(":", 1)[0].strip().lower() == label, "label %r where %r is documented" % (line.split(":", 1)[0].strip(), label))
